@@ -503,6 +503,9 @@ fn server_tails(h: &ServerH) -> Vec<(String, Vec<u8>)> {
         ("window announcement then media", vec![
             SAct::Raw { msid: 0, type_id: 5, body: vec![0, 0, 0, 40] }, SAct::Audio { sid: 1, ts: 5, len: 50 }, SAct::Ping { ts: 3 }, SAct::Video { sid: 1, ts: 6, len: 40 },
         ]),
+        ("abort messages between commands", vec![
+            SAct::UnknownCommand, SAct::Raw { msid: 0, type_id: 2, body: vec![0, 0, 0, 3] }, SAct::Ping { ts: 9 }, SAct::Raw { msid: 0, type_id: 2, body: vec![0, 0, 0, 2] }, SAct::UnknownCommand, SAct::Ping { ts: 10 },
+        ]),
         ("chunk size change then large media", vec![
             SAct::Raw { msid: 0, type_id: 1, body: vec![0, 0, 0, 16] }, SAct::Audio { sid: 1, ts: 5, len: 40 }, SAct::Ping { ts: 3 },
         ]),
@@ -556,6 +559,9 @@ fn client_tails(h: &ClientH, playing: bool) -> Vec<(String, Vec<u8>)> {
         ("results, status, ping", vec![
             CAct::Result { tx: 99.0, stream: Some(3.0) }, CAct::OnStatus { code: "NetStream.Play.Reset".into() }, CAct::Ping { ts: 5 }, CAct::Ping { ts: 6 }, CAct::Ping { ts: 6 }, CAct::Ack { n: 7 }, CAct::UnknownCommand,
             CAct::Meta { msid: 5, variant: 3 }, CAct::Error { tx: 98.0 },
+        ]),
+        ("abort and bandwidth messages between commands", vec![
+            CAct::UnknownCommand, CAct::Raw { msid: 0, type_id: 2, body: vec![0, 0, 0, 3] }, CAct::Ping { ts: 9 }, CAct::Raw { msid: 0, type_id: 6, body: vec![0, 0, 1, 0, 2] }, CAct::UnknownCommand, CAct::Ping { ts: 10 },
         ]),
         ("window announcement, chunk size, ping", vec![
             CAct::Raw { msid: 0, type_id: 5, body: vec![0, 0, 0, 30] }, CAct::Raw { msid: 0, type_id: 1, body: vec![0, 0, 0, 9] }, CAct::Meta { msid: 5, variant: 15 }, CAct::Ping { ts: 6 },
